@@ -204,6 +204,7 @@ def check(run: Run, prog: Program, model: Model, tier: str) -> None:
     # ---------------------------------------------------------------- CHILDREN + DRAW-ORDER (abstract evaluation)
     _children(run, prog, model, cls)
     _validator_pattern(run, prog, model)
+    _draw_nonempty(run, prog, model)
 
     # ---------------------------------------------------------------- ALPHABET
     _alphabets(run, prog, model, cls, cat_alpha)
@@ -282,6 +283,45 @@ def _validator_pattern(run: Run, prog: Program, model: Model) -> None:
                          witness="a pattern the rewrite changes (e.g. one ending in an escaped `\\$`): fake(schema.str.regex(p)) "
                                  "full-matches p and validate() reports RegexValidationError")
     run.floor("VALIDATOR-PATTERN", 2)
+
+
+def _draw_nonempty(run: Run, prog: Program, model: Model) -> None:
+    """DRAW-NONEMPTY: every sequence the regex generator draws a member from is non-empty: a constant alphabet, a
+    component of the parse tree (a class or an alternation has at least one member: parser contract), or a computed
+    candidate set whose non-emptiness the path establishes.  A negated class computes `letters - excluded`; if nothing
+    guards it, a class that excludes the whole alphabet (`[^ -~]`, satisfiable by any non-ASCII character) makes
+    random.choice raise IndexError."""
+    from ..partial import draw_nonempty
+    from ..visits import Config, run_visit
+    seen: Dict[str, Tuple[str, str, str]] = {}
+    for p in run_visit(prog, model, "Generator", "visit_str", Config(("pattern",)), None, unroll=1, max_depth=9):
+        for e in p.events:
+            if e.kind != "partial" or e.data.get("op") != "random.choice" or not e.data.get("operands"):
+                continue
+            if not any("_regex_generator" in q for q in e.stack):
+                continue
+            seq = e.data["operands"][0]
+            caller = next((q for q in reversed(e.stack) if "_regex_generator" in q), "").rsplit(".", 1)[-1]
+            site = e.loc(prog)
+            k = seq.key()
+            ne = draw_nonempty(seq, p, e)
+            if ne is True:
+                c = f"RegexGenerator.{caller}: draw from {'a constant alphabet' if isinstance(seq, Const) else k[:40]}"
+                seen.setdefault(c, ("HOLDS", site, "non-empty"))
+            elif ("parse" in k) and not any(m in k for m in ("bin(-", "bin(&", "difference", "set(")):
+                c = f"RegexGenerator.{caller}: draw from a component of the parse tree"
+                seen.setdefault(c, ("HOLDS", site, "a class / an alternation has at least one member (parser contract)"))
+            else:
+                c = f"RegexGenerator.{caller}: draw from a computed candidate set"
+                seen[c] = ("VIOLATED", site, f"nothing on the path establishes that {k[:60]}... is non-empty: a class that excludes the "
+                           "whole alphabet leaves no candidate and random.choice raises IndexError")
+    for c, (status, site, detail) in sorted(seen.items()):
+        if status == "HOLDS":
+            run.holds("DRAW-NONEMPTY", c, site, detail, nontrivial=True)
+        else:
+            run.violated("DRAW-NONEMPTY", c, site, detail,
+                         witness="fake(schema.str.regex(r'^[^ -~]$')) raises IndexError although the schema accepts e.g. 'é'")
+    run.floor("DRAW-NONEMPTY", 3)
 
 UNKNOWN = "__NO_SUCH_CODE__"
 
@@ -644,6 +684,8 @@ def _alphabets(run: Run, prog: Program, model: Model, cls: ClassInfo, cat_alpha:
 
 X = "d42/generation/_regex_generator.py"
 MUTANTS = [
+    {"name": "fallback for an exhausted negated class removed (fix 30d0521 reverted)", "rule": "DRAW-NONEMPTY",
+     "edits": [(X, "        if len(letters) == 0:\n            # the class excludes the whole alphabet: fall back to the first character it admits\n            letters = self._first_letter_not_in(exclude_letters)\n", "")]},
     {"name": "validator rewrites a trailing `$` of the pattern into \\Z by string surgery (seeded C09-J)", "rule": "VALIDATOR-PATTERN",
      "edits": [("d42/validation/_validator.py", "            match_object = re.search(schema.props.pattern, value)", "            pattern = schema.props.pattern\n            if pattern.endswith(\"$\"):\n                pattern = pattern[:-1] + r\"\\Z\"\n            match_object = re.search(pattern, value)")]},
     {"name": "neutral: validator searches through a compiled pattern object", "expect": "SILENT",
@@ -692,6 +734,6 @@ MUTANTS = [
 
 MUTANTS += [
     {"name": "negated-class complement memoised by id(node)", "rule": "NO-HIDDEN-STATE",
-     "edits": [(X, "        letters = \"\".join(set(self._alphabet[\"letters\"]) - set(exclude_letters))\n        return self._random.random_choice(letters)",
-                "        key = id(value)\n        if key not in self._alphabet:\n            self._alphabet[key] = \"\".join(set(self._alphabet[\"letters\"]) - set(exclude_letters))\n        return self._random.random_choice(self._alphabet[key])")]},
+     "edits": [(X, "        letters = \"\".join(set(self._alphabet[\"letters\"]) - set(exclude_letters))\n        if len(letters) == 0:",
+                "        key = id(value)\n        if key not in self._alphabet:\n            self._alphabet[key] = \"\".join(set(self._alphabet[\"letters\"]) - set(exclude_letters))\n        letters = self._alphabet[key]\n        if len(letters) == 0:")]},
 ]
